@@ -77,6 +77,9 @@ func ZZ_C18_RequestStateRecycle() {
 	}
 	r1.s.done = zzverif.Bool()
 	r1.Free()
+	if zzverif.Bool() {
+		r1.Free() // an explicit Free plus a deferred one: must not put the state into the pool twice
+	}
 
 	r2 := NewRequest()
 	m := zzverif.String(1)
@@ -85,6 +88,9 @@ func ZZ_C18_RequestStateRecycle() {
 	req, st := r2.Build()
 	zzverif.Assert(st.OK(), "build")
 	zzverif.Assert(req.Calls().Len() == 1 && string(req.Calls().Get(0).Method()) == m, "request contains calls of an earlier owner of its state")
+	r3 := NewRequest()
+	zzverif.Assert(r3.s != r2.s, "two live requests share one pooled state")
+	r3.Free()
 	r2.Free()
 	zzverif.Reach("done")
 }
